@@ -3,7 +3,9 @@
 scn: variant 'tcp' (ModbusClientProtocol + socket framer, dict manager) |
              'serial' (ModbusSerClientProtocol + RTU framer, FIFO manager)
      tid_start, events [...]:
-       {'e':'req','id':n,'count':c,'addr':a}         issue read_holding_registers(a, c, unit=1)
+       {'e':'req','id':n,'count':c,'addr':a}         issue read_holding_registers(a, c, unit=1); optional 'kind':
+                                                     'rc' read_coils / 'wr' write_register, 'exc': code = the server
+                                                     answers with that exception
        {'e':'reply','ids':[...],'coalesce':bool}      deliver correct replies for those requests (this order)
        {'e':'unsolicited','tid':t}                    deliver a well-formed reply nobody asked for
        {'e':'dup','id':n}                             deliver request n's reply once more
@@ -43,6 +45,61 @@ def reply_values(rid, count):
     return [((rid * 131 + i * 7) & 0x7FFF) | 0x0100 for i in range(count)]
 
 
+def reply_bits(rid, count):
+    return [bool(((rid * 2654435761) >> (i % 31)) & 1) for i in range(count)]
+
+
+def request_pdu_of(rec):
+    kind = rec.get('kind', 'rhr')
+    if kind == 'rhr':
+        return codec.req_read(3, rec['addr'], rec['count'])
+    if kind == 'rc':
+        return codec.req_read(1, rec['addr'], rec['count'])
+    if kind == 'wr':
+        return codec.req_write_reg(rec['addr'], reply_values(rec['id'], 1)[0])
+    raise ValueError(kind)
+
+
+def reply_pdu_of(rec):
+    """The reply the reference server sends for this request (unique content per request id)."""
+    rq = request_pdu_of(rec)
+    if rec.get('exc'):
+        return codec.rsp_exception(rq[0], rec['exc'])
+    kind = rec.get('kind', 'rhr')
+    if kind == 'rhr':
+        return codec.rsp_regs(3, reply_values(rec['id'], rec['count']))
+    if kind == 'rc':
+        return codec.rsp_bits(1, reply_bits(rec['id'], rec['count']))
+    return rq                       # write single register: echo
+
+
+def expected_summary(rec):
+    """What the object handed to the callback has to carry for this request."""
+    rq = request_pdu_of(rec)
+    if rec.get('exc'):
+        return {'cls': 'ExceptionResponse', 'fc': rq[0] | 0x80, 'exc': rec['exc']}
+    kind = rec.get('kind', 'rhr')
+    if kind == 'rhr':
+        return {'cls': 'ReadHoldingRegistersResponse', 'fc': 3, 'regs': reply_values(rec['id'], rec['count'])}
+    if kind == 'rc':
+        return {'cls': 'ReadCoilsResponse', 'fc': 1, 'bits': reply_bits(rec['id'], rec['count'])}
+    return {'cls': 'WriteSingleRegisterResponse', 'fc': 6, 'address': rec['addr'], 'value': reply_values(rec['id'], 1)[0]}
+
+
+def summarize(result, rec):
+    d = {'cls': type(result).__name__, 'fc': getattr(result, 'function_code', None)}
+    if hasattr(result, 'exception_code'):
+        d['exc'] = result.exception_code
+    elif hasattr(result, 'registers'):
+        d['regs'] = list(result.registers)
+    elif hasattr(result, 'bits'):
+        d['bits'] = [bool(b) for b in result.bits][:rec['count']]
+    elif hasattr(result, 'value'):
+        d['address'] = getattr(result, 'address', None)
+        d['value'] = result.value
+    return d
+
+
 class TwcResult(object):
     pass
 
@@ -70,12 +127,18 @@ def run(scn, keep_log=False):
         def issue(ev):
             rid = ev['id']
             rec = {'id': rid, 'count': ev.get('count', 1), 'addr': ev.get('addr', rid & 0xFFFF), 'cb': [], 'eb': [],
+                   'kind': ev.get('kind', 'rhr'), 'exc': ev.get('exc'),
                    'issued_connected': connected, 'seq': k.log('issue', rid)}
             reqs[rid] = rec
             order.append(rid)
             n0 = len(tr.out)
             try:
-                d = proto.read_holding_registers(rec['addr'], rec['count'], unit=1)
+                if rec['kind'] == 'rc':
+                    d = proto.read_coils(rec['addr'], rec['count'], unit=1)
+                elif rec['kind'] == 'wr':
+                    d = proto.write_register(rec['addr'], reply_values(rid, 1)[0], unit=1)
+                else:
+                    d = proto.read_holding_registers(rec['addr'], rec['count'], unit=1)
             except Exception as ex:
                 rec['raised'] = type(ex).__name__
                 return
@@ -86,13 +149,14 @@ def run(scn, keep_log=False):
                 try:
                     u, tid, pid, pdu = codec.parse_frame(framing, wrote[0])
                     rec['tid'] = tid
-                    rec['wire_ok'] = (pdu == codec.req_read(3, rec['addr'], rec['count']) and u == 1)
+                    rec['wire_ok'] = (pdu == request_pdu_of(rec) and u == 1)
                 except codec.Malformed:
                     rec['wire_ok'] = False
 
             def cb(result, rec=rec):
                 rec['cb'].append({'seq': k.log('callback', rec['id']), 'regs': list(getattr(result, 'registers', []) or []),
-                                  'tid': getattr(result, 'transaction_id', None), 'cls': type(result).__name__})
+                                  'tid': getattr(result, 'transaction_id', None), 'cls': type(result).__name__,
+                                  'summary': summarize(result, rec)})
                 return None
 
             def eb(failure, rec=rec, ev=ev):
@@ -106,7 +170,7 @@ def run(scn, keep_log=False):
 
         def frame_for(rid):
             rec = reqs[rid]
-            return codec.frame(framing, 1, codec.rsp_regs(3, reply_values(rid, rec['count'])), tid=rec.get('tid') or 0)
+            return codec.frame(framing, 1, reply_pdu_of(rec), tid=rec.get('tid') or 0)
 
         def feed(data):
             try:
